@@ -54,7 +54,7 @@ func c01Rules(p *Prog, r *Result, keyField string) *RuleSet {
 	va, vd := voucherAtoms()
 	chainEnd := func(m *Matcher, v ssa.Value) bool {
 		s := m.Prov(v)
-		return s.Has("call:fdo/protocol.PublicKey.Public") && s.Has("field:fdo.VoucherEntryPayload.PublicKey") && s.Has("field:fdo.VoucherHeader.ManufacturerKey")
+		return s.HasX("call:fdo/protocol.PublicKey.Public") && s.HasX("field:fdo.VoucherEntryPayload.PublicKey") && s.HasX("field:fdo.VoucherHeader.ManufacturerKey")
 	}
 	chainEndLocal := func(m *Matcher, v ssa.Value) bool {
 		s := m.Prov(v)
@@ -98,7 +98,25 @@ func c01Rules(p *Prog, r *Result, keyField string) *RuleSet {
 		equal("nonce-echo", "the decoded ProveOVHdr nonce equals the fresh nonce generated for this HelloDevice",
 			provAnd(decoded, lacksProv("fresh:")), provAnd(hasProv("fresh:"), lacksProv("decoded:"))),
 		equal("hello-hash", "the decoded HelloDevice hash equals the hash recomputed by the device",
-			provAnd(decoded, lacksProv("call:hash.Hash.Sum")), sumResult),
+			provAnd(hasProvX("decoded:"), lacksProv("call:hash.Hash.Sum")),
+			// the Sum of a hash into which, in the same function, the HelloDevice
+			// message (the value carrying the fresh nonce) was encoded
+			func(m *Matcher, v ssa.Value) bool {
+				if !sumResult(m, v) {
+					return false
+				}
+				for _, b := range m.Fn.Blocks {
+					for _, in := range b.Instrs {
+						if c, ok := in.(ssa.CallInstruction); ok && m.P.calleeOf(c.Common()).Name == "fdo/cbor.Encoder.Encode" {
+							a := allArgs(c)
+							if m.Prov(a[0]).HasPrefix("call:crypto.Hash.New") && m.Prov(a[1]).HasX("fresh:") && m.Prov(v).HasPrefix("call:crypto.Hash.New") {
+								return true
+							}
+						}
+					}
+				}
+				return false
+			}),
 		AtomDef{Name: "hello-hashed", Doc: "the request value that was sent as HelloDevice is what was encoded into that hash", Exec: func(m *Matcher, call ssa.CallInstruction) bool {
 			if m.P.calleeOf(call.Common()).Name != "fdo/cbor.Encoder.Encode" {
 				return false
@@ -107,21 +125,7 @@ func c01Rules(p *Prog, r *Result, keyField string) *RuleSet {
 			if !m.Prov(args[0]).HasPrefix("call:crypto.Hash.New") {
 				return false
 			}
-			a := baseAlloc(loadOrSelf(stripConv(args[1])))
-			if a == nil {
-				return false
-			}
-			for _, b := range m.Fn.Blocks {
-				for _, in := range b.Instrs {
-					if c2, ok := in.(ssa.CallInstruction); ok && m.P.calleeOf(c2.Common()).Name == "fdo.Transport.Send" {
-						sa := allArgs(c2)
-						if baseAlloc(loadOrSelf(stripConv(sa[3]))) == a && m.Prov(sa[3]).Has("fresh:") {
-							return true
-						}
-					}
-				}
-			}
-			return false
+			return sentAsHello(m.P, m.Fn, args[1], 0)
 		}},
 		isNil("to1d-nil", "no rendezvous blob was supplied (RV bypass)", to1dParam),
 		boolTrue("to1d-sig-true", "Sign1.Verify of the to1d blob under the chain-end key returned true", named("fdo/cose.Sign1.Verify"), 0, to1dVerify),
@@ -224,4 +228,65 @@ func boolStr(b bool) string {
 		return "true"
 	}
 	return "false"
+}
+
+// sentAsHello: v is the very value handed to Transport.Send together with the
+// fresh nonce in fn (same local variable), or fn received it as a parameter and
+// every in-module caller passes such a value.
+func sentAsHello(p *Prog, fn *ssa.Function, v ssa.Value, depth int) bool {
+	if depth > 3 {
+		return false
+	}
+	m := p.matcher(fn)
+	x := loadOrSelf(stripConv(v))
+	if a := baseAlloc(x); a != nil {
+		// a parameter spilled into a local (value parameters whose address is taken)
+		var param *ssa.Parameter
+		stores := 0
+		for _, ref := range *a.Referrers() {
+			if st, ok := ref.(*ssa.Store); ok && st.Addr == a {
+				stores++
+				if pr, ok := st.Val.(*ssa.Parameter); ok {
+					param = pr
+				}
+			}
+		}
+		if param == nil || stores != 1 {
+			for _, b := range fn.Blocks {
+				for _, in := range b.Instrs {
+					if c2, ok := in.(ssa.CallInstruction); ok && p.calleeOf(c2.Common()).Name == "fdo.Transport.Send" {
+						sa := allArgs(c2)
+						if baseAlloc(loadOrSelf(stripConv(sa[3]))) == a && m.Prov(sa[3]).Has("fresh:") {
+							return true
+						}
+					}
+				}
+			}
+			return false
+		}
+		x = param
+	}
+	pr, ok := x.(*ssa.Parameter)
+	if !ok {
+		return false
+	}
+	pi := -1
+	for i, q := range fn.Params {
+		if q == pr {
+			pi = i
+		}
+	}
+	n := 0
+	for _, ed := range p.CallGraph().in[fn] {
+		cs, ok := ed.Site.(ssa.CallInstruction)
+		if !ok || ed.Kind != "static" || isHarnessPkg(funcPkgPath(ed.Caller)) {
+			continue
+		}
+		ops := callOperands(cs.Common())
+		if pi >= len(ops) || !sentAsHello(p, ed.Caller, ops[pi], depth+1) {
+			return false
+		}
+		n++
+	}
+	return n > 0
 }
